@@ -62,6 +62,13 @@ class C02Oracle(Oracle):
         if oc in ("VolumeOverflowError", "VolumeUnderflowError") and not isinstance(out.exc, sess.rt.VolumeViolationException):
             self.fail("C02.class", i, op, oc, f"{oc} is raised but is not a VolumeViolationException")
             return
+        if op["op"] == "construct" and out.ok and out.result is not None:
+            # "no well volume ever becomes negative": a labware that could be constructed holds no negative volume
+            flat = [float(x) for x in out.result.volumes.flatten().tolist()]
+            bad = [x for x in flat if x < 0]
+            if bad:
+                self.fail("C02.nonneg", i, op, oc, f"a labware was constructed with initial volume {bad[0]!r} in a well")
+                return
         if op["op"] not in LIQ:
             for j in range(n):
                 if now_hex[j] != self.pre_hex[j]:
@@ -248,10 +255,37 @@ class Program:
             vmin = 0.0
         return {"op": "set_limits", "lab": li, "min": enc(float(vmin)), "max": enc(float(vmax))}
 
+    def construct(self):
+        """one more labware is built in the middle of the script, with one initial volume that cannot be (negative):
+        the constructor must refuse, or at least not end up with a negative well."""
+        import copy
+        from ..sim.geom import enc
+        from ..sim.world import gen_labware
+        rng = self.rng
+        kind = rng.choice(["plate", "plate", "trough"])
+        spec = gen_labware(rng, kind, "extra", self.world["regime"], rng.choice(["small", "small", "medium"]), 7, {})
+        spec = copy.deepcopy(spec)
+        spec.pop("initial_dtype", None)
+        ini = dec(spec["initial"])
+        bad = rng.choice([-0.25, -1.0, -1e-9, -5e-324, -250.0, float("-inf")])
+        if rng.random() < 0.25:
+            # all wells (the scalar case is what the test suite samples)
+            ini = [[bad for _ in row] for row in ini] if kind == "plate" else [bad for _ in ini]
+        elif kind == "plate":
+            ini[rng.randrange(len(ini))][rng.randrange(len(ini[0]))] = bad
+        else:
+            ini[rng.randrange(len(ini))] = bad
+        spec["initial"] = enc(ini)
+        if kind == "trough":
+            spec["initial_as_array"] = rng.random() < 0.5
+        return {"op": "construct", "spec": spec}
+
     def source(self, i, sess):
         if i >= self.n:
             return None
         rng, g = self.rng, self.gen
+        if rng.random() < 0.03:
+            return self.construct()
         fault = rng.random() < self.p_fault
         r = rng.random()
         kinds = ["add", "remove", "aspirate", "dispense", "transfer", "transfer", "distribute"]
